@@ -133,6 +133,19 @@ class World:
         except Exception as e:
             raise PropertyViolation("C09/assign/%s/raises" % form, "accepted form %s raised %s: %s (names %s)" % (
                 form, type(e).__name__, str(e)[:200], op["names"]), None)
+        # the caller goes on using its own container (a work vector scaled for the next model of a sweep, a dict updated
+        # for the next run): the model keeps the values it was GIVEN
+        if isinstance(arg, np.ndarray) and arg.dtype.kind == "f":
+            arg *= 4.0
+            arg += 1.0
+            self.rec.label("assign:caller-reuses-its-array-afterwards")
+        elif isinstance(arg, list) and arg and not isinstance(arg[0], tuple):
+            for i_ in range(len(arg)):
+                arg[i_] = arg[i_] * 4 + 1
+        elif isinstance(arg, dict):
+            for k_ in list(arg):
+                if isinstance(arg[k_], (int, float, np.floating)):
+                    arg[k_] = arg[k_] * 4 + 1
         for n, v in zip(op["names"], op["values"]):
             self.vals[n] = float(self._value(v, op.get("vtype", "float")))
         params = self.m["params"]
